@@ -35,7 +35,7 @@ LOOPS = {
     ("ppt_extractor", "_parse_containers"): "pops a non-empty stack",
     ("rtf_extractor", "_RtfParser._remove_ignorable_groups"): "i increases by >=1 up to n",
     ("rtf_extractor", "_RtfParser._strip_rtf_full_with_pages"): "i/j increase by >=1 up to n; k decreases to 0",
-    ("xls_extractor", "_extract_images_from_workbook"): "offset += 4+len",
+    ("xls_extractor", "_extract_images_from_workbook"): "offset += 1 | 8+rec_len with rec_len > 0  (modelled: C01/LoopsXls.v xls_blips)",
     ("docx_extractor", "_get_image_pixel_dimensions"): "i += 2+seg_len or 1 (same walk as C01/Loops.v jpeg_dims)",
     ("pptx_extractor", "_get_image_pixel_dimensions"): "i += 2+seg_len or 1",
     ("xlsx_extractor", "_get_image_pixel_dimensions"): "i += 2+seg_len or 1",
@@ -949,6 +949,57 @@ def loop_correspondence(ctx):
                        (f"{len(failing)} disagreements, first: {info[failing[0]] if failing else ''} hung={hung} " + log)[:800])
 
 
+def xls_walk_correspondence(ctx):
+    """The BLIP record walk of xls_extractor._extract_images_from_workbook vs C01/LoopsXls.v (watchdogged)."""
+    import struct
+    rng = ctx.rng
+    from sharepoint2text.parsing.extractors.util import image_utils
+    live = sorted(image_utils.BLIP_TYPES)
+    ctx.obligation("xls-walk:BLIP_TYPES are the modelled ones", live == [61466, 61467, 61468, 61469, 61470, 61471, 61481], str(live))
+    inputs = []
+    for _ in range(ctx.n(100, 800)):
+        buf = bytearray()
+        for _ in range(rng.randint(0, 7)):
+            r = rng.random()
+            if r < 0.65:
+                payload = rng.choice([b"\x89PNG\r\n\x1a\n", b"\xff\xd8\xff\xe0", b"BM", b""]) + rng.randbytes(rng.choice([0, 5, 16, 17, 18, 32, 33, 34, 60]))
+                inst = rng.choice([0x6E0, 0x6E1, 0x46A, 0x46B, 0x7A8, 0])
+                ln = len(payload) if rng.random() < 0.8 else rng.choice([0, 1, 17, 18, 33, 34, 2 ** 32 - 1, len(payload) + rng.randint(1, 40)])
+                buf += struct.pack("<HHI", (inst << 4) | rng.choice([0, 15]), rng.choice(live + [0xF01E, 0xF01D, 0xF007, 0, 65535]), ln) + payload
+            elif r < 0.85:
+                buf += rng.randbytes(rng.randint(1, 9))
+            else:
+                buf += b"\xff" * rng.randint(1, 8)
+        inputs.append((bytes(buf),))
+    res, hung = guarded_calls("c01_xlswalk.walk", inputs, timeout=30.0)
+    if hung is not None:
+        ctx.finding("hang:_extract_images_from_workbook", f"_extract_images_from_workbook does not terminate on a Workbook stream starting "
+                    f"{inputs[hung][0][:24].hex()}…", {"function": "_extract_images_from_workbook", "input": inputs[hung][0]})
+    zl = lambda b: "[" + ";".join(str(x) for x in b) + "]%Z"
+    cases, info = [], []
+    for (data,), r in zip(inputs, res):
+        if r is None or (isinstance(r[1], tuple) and r[1] and r[1][0] == "EXC"):
+            continue
+        stream, seen = r[1]
+        # the zero padding added by the OLE writer is part of what the extractor reads; cut the all-zero tail to keep
+        # the Coq terms small (zeros parse as rec_len = 0: one step each, no record)
+        # (a header inside `data` may declare a length that reaches into the padding: keep everything such a record spans)
+        cut = max(len(data) + 16, 32)
+        for o in range(0, max(0, len(data) - 7)):
+            end = o + 8 + int.from_bytes(stream[o + 4:o + 8], "little")
+            if cut < end <= len(stream):
+                cut = end + 16
+        stream = stream[:cut]
+        ctx.case(("xls_blips", data), len(seen) > 0, kind="loop:xls_blips")
+        cases.append(f"({zl(stream)}, [" + ";".join(zl(s_) for s_ in seen) + "])")
+        info.append(data.hex())
+    pre = "From Coq Require Import List ZArith.\nFrom S2T Require Import C01.Loops C01.LoopsXls C01.Corr.\nImport ListNotations.\n"
+    ok, failing, log = common.coq_eval_shards(ctx, "xlsblip", pre, "xls_blip_case", cases, shard=200, ty="list Z * list (list Z)")
+    ctx.obligation("correspondence:xls_blips==xls_extractor._extract_images_from_workbook (slices handed to the sniffer)",
+                   ok and not failing and hung is None and len(cases) > 50,
+                   (f"{len(failing)} disagreements, first: {info[failing[0]] if failing else ''} hung={hung} " + log)[:800])
+
+
 def replay(ctx, rp):
     """./check C01 --replay F : run the stored input through the extractor (or the CLI) under the watchdog."""
     import c01_fuzz
@@ -985,10 +1036,11 @@ def run(ctx):
     loop_inventory(ctx)
     attachment_path_inventory(ctx)
     fuzz(ctx)
-    ctx.prove("C01/Props.v", ["C01/ExnProofs.vo", "C01/LoopsProofs.vo", "C01/Corr.vo"], expected=[
+    ctx.prove("C01/Props.v", ["C01/ExnProofs.vo", "C01/LoopsProofs.vo", "C01/LoopsXls.vo", "C01/Corr.vo"], expected=[
         "C01_esc_sound", "C01_contained_sound", "C01_iter_records_terminates", "C01_jpeg_dims_terminates",
-        "C01_ooxml_jpeg_dims_terminates"])
+        "C01_ooxml_jpeg_dims_terminates", "C01_xls_blips_terminates", "C01_xls_blips_in_bounds"])
     loop_correspondence(ctx)
+    xls_walk_correspondence(ctx)
     ctx.prove("C01/Inst.v", ["Gen/C01Skeletons.vo", "C01/ExnProofs.vo"], expected=[
         "C01_all_contained", "C01_no_foreign_exception_escapes", "C01_silent_wrappers", "C01_silent_sound",
         "C01_skeleton_count"])
